@@ -222,17 +222,18 @@ func script(p Plan, out *vk.Outcome) error {
 				helpers.Add(1)
 				go func() {
 					defer helpers.Done()
-					g.Do(func(ctx context.Context) {
-						r := &runRec{reg: -1, startT: time.Now()}
-						mu.Lock()
-						r.start = sk.Tick()
-						stormRuns = append(stormRuns, r)
-						mu.Unlock()
-						time.Sleep(time.Millisecond)
-						mu.Lock()
-						r.end, r.endT = sk.Tick(), time.Now()
-						mu.Unlock()
-					})
+					for rep := 0; rep < 40; rep++ { // keep registering while the stop is in progress
+						g.Do(func(ctx context.Context) {
+							r := &runRec{reg: -1, startT: time.Now()}
+							mu.Lock()
+							r.start = sk.Tick()
+							stormRuns = append(stormRuns, r)
+							mu.Unlock()
+							mu.Lock()
+							r.end, r.endT = sk.Tick(), time.Now()
+							mu.Unlock()
+						})
+					}
 				}()
 			}
 			_ = stormStarted
